@@ -70,8 +70,85 @@ def _lm_class():
             def extract_by_src(self, prev, src):
                 return {"s": prev["s"].index_select(0, src), "aux": prev["aux"].index_select(0, src)}
 
+            def update_input(self, prev, hist):
+                # initial_state omitted / None / {} (variant "noinit"): every element starts in state 0
+                if len(prev):
+                    return prev
+                s = torch.zeros(hist.size(1), dtype=torch.long)
+                return {"s": s, "aux": torch.stack([s * 0, s], 1)}
+
+        class ViewHashLM(HashLM):
+            """the same function of (state, history); every tensor it hands to the library is a NON-CONTIGUOUS
+            view: logits = every second column of a (M, 2V) buffer with junk in between, the state vector a
+            stride-2 slice, aux a transposed (2, N) tensor."""
+
+            def __init__(self, V, M, a, b, c, table):
+                super().__init__(V, M, a, b, c, table)
+                junk = torch.full_like(table, 12345.0)
+                self.table2 = torch.stack([table, junk], 2).flatten(1)      # (M, 2V): t0 j t1 j ...
+
+            def calc_idx_log_probs(self, hist, prev, idx):
+                _, nxt = super().calc_idx_log_probs(hist, prev, idx)
+                s, t = nxt["s"], int(idx)
+                logits = self.table2[s][:, ::2]
+                s_view = torch.stack([s, s * 0 - 7], 1)[:, 0]
+                aux = torch.stack([s * 0 + t, s], 0).t()
+                assert not aux.is_contiguous() or aux.numel() <= 2
+                return logits, {"s": s_view, "aux": aux}
+
         _LM_CLS = HashLM
+        _LM_CLS.View = ViewHashLM
     return _LM_CLS
+
+
+_SLM_CLS = None
+
+
+def _slm_class():
+    """TorchScript-compatible twin of HashLM (the library's own tests script BeamSearch with a scripted LM):
+    same state machine, errors signalled by RuntimeError with a marker in the message."""
+    global _SLM_CLS
+    if _SLM_CLS is None:
+        from typing import Dict, Tuple
+        from pydrobert.torch.modules import ExtractableSequentialLanguageModel
+
+        class SHashLM(ExtractableSequentialLanguageModel):
+            def __init__(self, V: int, M: int, a: int, b: int, c: int, table: torch.Tensor, cap: int):
+                super().__init__(V)
+                self.M, self.a, self.b, self.c, self.cap = M, a, b, c, cap
+                self.register_buffer("table", table)
+
+            @torch.jit.export
+            def update_input(self, prev: Dict[str, torch.Tensor], hist: torch.Tensor) -> Dict[str, torch.Tensor]:
+                if len(prev):
+                    return prev
+                s = torch.zeros(hist.size(1), dtype=torch.long)
+                return {"s": s, "aux": torch.stack([s * 0, s], 1)}
+
+            @torch.jit.export
+            def calc_idx_log_probs(self, hist: torch.Tensor, prev: Dict[str, torch.Tensor],
+                                   idx: torch.Tensor) -> Tuple[torch.Tensor, Dict[str, torch.Tensor]]:
+                t = int(idx.item())
+                if t >= self.cap:
+                    raise RuntimeError("c04-watchdog")
+                if t > hist.size(0):
+                    raise RuntimeError("c04-idx-contract")
+                s = prev["s"]
+                if not torch.equal(prev["aux"][:, 1], s):
+                    raise RuntimeError("c04-lm-assert: aux and s out of step")
+                if t > 0:
+                    tok = hist[t - 1]
+                    if not bool(((tok >= 0) & (tok < self.vocab_size)).all()):
+                        raise RuntimeError("c04-lm-assert: history outside the vocabulary")
+                    s = (self.a * s + self.b * tok + self.c) % self.M
+                return self.table[s], {"s": s, "aux": torch.stack([s * 0 + t, s], 1)}
+
+            @torch.jit.export
+            def extract_by_src(self, prev: Dict[str, torch.Tensor], src: torch.Tensor) -> Dict[str, torch.Tensor]:
+                return {"s": prev["s"].index_select(0, src), "aux": prev["aux"].index_select(0, src)}
+
+        _SLM_CLS = SHashLM
+    return _SLM_CLS
 
 
 class _Watchdog(Exception):
@@ -93,21 +170,102 @@ def _table_tensor(case):
     return t.to(torch.float32) if _f32(case) else t
 
 
+VIAS = ("script", "kw", "reuse", "views", "noinit")
+
+
+def _init_state(inits, via):
+    s0 = torch.tensor(inits, dtype=torch.long)
+    if via == "views":
+        # the same values as non-contiguous views: a stride-3 slice with storage offset / an expanded scalar
+        if len(inits) > 1 and len(set(inits)) == 1:
+            s0 = torch.tensor([-5, inits[0]], dtype=torch.long)[1:].expand(len(inits))
+        else:
+            buf = torch.full((3 * len(inits) + 2,), -9, dtype=torch.long)
+            buf[2::3] = s0
+            s0 = buf[2::3]
+        return {"s": s0, "aux": torch.stack([s0, s0 * 0], 0).flip(0).t()}
+    return {"s": s0, "aux": torch.stack([s0 * 0, s0], 1)}
+
+
+def _valid_equal(y1, l1, y2, l2):
+    """same lengths and same tokens within the lengths (cells beyond are documented as invalid)"""
+    if y1.shape != y2.shape or l1.shape != l2.shape or not torch.equal(l1, l2):
+        return False
+    S = y1.size(0)
+    m = torch.arange(S).view([S] + [1] * (y1.dim() - 1)) < l1
+    return torch.equal(y1.masked_fill(~m, 0), y2.masked_fill(~m, 0))
+
+
+def _call(bs, case, init, N, mi):
+    """the call forms of BeamSearch.__call__ (all documented as equivalent)"""
+    via = case.get("via")
+    if via == "noinit":
+        form = case.get("form", 0) % 3
+        if form == 0:
+            return bs(None, N, mi)
+        if form == 1:
+            return bs({}, batch_size=N, max_iters=mi)
+        kw = {}
+        if N is not None:
+            kw["batch_size"] = N
+        if mi is not None:
+            kw["max_iters"] = mi
+        return bs(**kw)
+    if via == "kw":
+        kw = {}
+        if N is not None or case.get("form", 0) % 2:
+            kw["batch_size"] = N
+        if mi is not None or case.get("form", 0) % 4 >= 2:
+            kw["max_iters"] = mi
+        return bs(init, **dict(reversed(list(kw.items()))))
+    return bs(init, N, mi)
+
+
 def _search_once(case, inits, N):
-    """returns dict: out (per element list of None | [path, len, score]), S; or exc / watchdog."""
+    """returns dict: out (per element list of None | [path, len, score]), S; or exc / watchdog.
+    case["via"] selects the entry point / layout / call history (the logical input, and therefore the model
+    term, is the same): None = eager module, positional; "script" = torch.jit.script(BeamSearch) over a scripted
+    LM; "kw" = keyword arguments; "noinit" = initial_state omitted / None / {} (all initial states 0, made by
+    the LM's update_input); "views" = the LM and the caller hand over non-contiguous tensors; "reuse" = one
+    module object is first used for a different search (other batch size, step limit, initial states), then for
+    the case twice - both answers must be bit-identical."""
     from pydrobert.torch.modules import BeamSearch
 
-    lm = _lm_class()(case["V"], case["M"], case["a"], case["b"], case["c"], _table_tensor(case))
+    via = case.get("via")
+    tab = _table_tensor(case)
+    args = (case["V"], case["M"], case["a"], case["b"], case["c"], tab)
+    if via == "script":
+        lm = _slm_class()(*args, CAP)
+    elif via == "views":
+        lm = _lm_class().View(*args)
+    else:
+        lm = _lm_class()(*args)
     try:
         bs = BeamSearch(lm, case["width"], eos=case["eos"], finish_all_paths=case["fin_all"], pad_value=case["pad"])
-        s0 = torch.tensor(inits, dtype=torch.long)
-        init = {"s": s0, "aux": torch.stack([s0 * 0, s0], 1)}
-        y, lens, lp = bs(init, N, case["max_iters"])
+        if via == "script":
+            bs = torch.jit.script(bs)
+        init = _init_state(inits, via)
+        if via == "reuse":
+            oN = (N or 1) + 1 + case.get("form", 0) % 2
+            omi = 1 + (case.get("form", 0) // 2 + (case["max_iters"] or 2)) % 4
+            try:
+                bs(_init_state([(x + 1) % case["M"] for x in (list(inits) * oN)[:oN]], None), oN, omi)
+            except Exception:  # noqa: BLE001
+                pass
+            first = bs(init, N, case["max_iters"])
+        y, lens, lp = _call(bs, case, init, N, case["max_iters"])
+        if via == "reuse":
+            if not (_valid_equal(first[0], first[1], y, lens) and torch.equal(first[2], lp)):
+                return {"exc": "HistoryDependent", "msg": "two calls of one module object with the same arguments differ"}
     except _Watchdog:
         return {"watchdog": True}
     except _IdxContract as e:
         return {"exc": "LMContract", "msg": str(e)[:200]}
     except Exception as e:  # noqa: BLE001
+        if "c04-watchdog" in str(e):
+            return {"watchdog": True}
+        if "c04-idx-contract" in str(e):
+            return {"exc": "LMContract", "msg": "idx > hist.size(0) (scripted LM)"}
         return {"exc": exc_kind(e), "msg": str(e)[:200]}
     if N is None:
         y, lens, lp = y.unsqueeze(1), lens.unsqueeze(0), lp.unsqueeze(0)
@@ -320,12 +478,54 @@ def run_impl_adv(case):
     lpp = f(case["prev"]).reshape(N, Kp)
     y = torch.tensor(case["y"], dtype=torch.long).reshape(N, Kp, S).permute(2, 0, 1).contiguous()
     lens = None if case["lens"] is None else torch.tensor(case["lens"], dtype=torch.long).reshape(N, Kp)
+    if case.get("f32"):
+        lpt, lpp = lpt.float(), lpp.float()     # the generator keeps |score| < 2^24: exact
+    layout = case.get("layout", 0)
+    if layout == 1:
+        # transposed / storage-offset views of larger buffers
+        y = y.permute(0, 2, 1).contiguous().permute(0, 2, 1)      # stored (S, Kp, N): dims N, Kp cannot be merged
+        buf = lpt.new_full((N, Kp + 1, V + 2), 7.0)
+        buf[:, 1:, 1:-1] = lpt
+        lpt = buf[:, 1:, 1:-1]
+        lpp = lpp.t().contiguous().t()
+        if lens is not None:
+            lens = lens.t().contiguous().t()
+    elif layout == 2:
+        # step-sliced views
+        buf = lpt.new_full((N, Kp, 2 * V), -3.0)
+        buf[..., ::2] = lpt
+        lpt = buf[..., ::2]
+        buf = lpp.new_full((N, 2 * Kp + 1), 0.0)
+        buf[:, 1::2] = lpp
+        lpp = buf[:, 1::2]
+        buf = y.new_full((S + 1, N, Kp), 1)
+        buf[1:] = y
+        y = buf[1:]
+        if lens is not None:
+            buf = lens.new_full((2 * N, Kp), 0)
+            buf[::2] = lens
+            lens = buf[::2]
+    saved = [lpt.clone(), lpp.clone(), y.clone(), None if lens is None else lens.clone()]
     try:
-        yn, ln, lpn, src = beam_search_advance(lpt, case["width"], lpp, y, lens)
+        call = case.get("call", "pos")
+        if call == "kw":
+            kw = dict(y_prev=y, log_probs_prev=lpp, width=case["width"], log_probs_t=lpt)
+            if lens is not None or case.get("layout", 0) == 1:
+                kw["y_prev_lens"] = lens
+            yn, ln, lpn, src = beam_search_advance(**kw)
+        elif lens is None and call == "short":
+            yn, ln, lpn, src = beam_search_advance(lpt, case["width"], lpp, y)
+        else:
+            yn, ln, lpn, src = beam_search_advance(lpt, case["width"], lpp, y, lens)
     except RuntimeError:
         return None
     except Exception as e:  # noqa: BLE001
         return {"exc": exc_kind(e)}
+    now = [lpt, lpp, y, lens]
+    if any((a is None) != (b is None) or (a is not None and not torch.equal(a, b)) for a, b in zip(saved, now)):
+        return {"exc": "InputModified"}
+    if case.get("f32") and lpn.dtype != torch.float32:
+        return {"exc": "dtype"}
     W = case["width"]
     if list(ln.shape) != [N, W] or list(lpn.shape) != [N, W] or list(src.shape) != [N, W] or list(yn.shape[1:]) != [N, W]:
         return {"exc": "shape"}
@@ -401,7 +601,15 @@ def gen_adv(rng):
                 lens = [[rng.randint(0, S - 1) for _ in range(Kp)] for _ in range(N)]
             else:
                 lens = [[rng.randint(0, S) for _ in range(Kp)] for _ in range(N)]
-        return dict(kind="advance", N=N, Kp=Kp, V=V, S=S, width=width, prev=prev, logp=logp, y=y, lens=lens)
+        case = dict(kind="advance", N=N, Kp=Kp, V=V, S=S, width=width, prev=prev, logp=logp, y=y, lens=lens)
+        # robustness dimensions: memory layout, float dtype, call form (same logical input, same model term)
+        if rng.random() < 0.5:
+            case["layout"] = rng.choice([1, 2])
+        if not big and rng.random() < 0.3:
+            case["f32"] = True
+        if rng.random() < 0.4:
+            case["call"] = rng.choice(["kw", "short"])
+        return case
 
 
 # ----------------------------------------------------------------------------------------------------
@@ -531,6 +739,70 @@ def gen_extreme(rng):
             c["N"] = 2
             c["inits"] = [rng.randrange(c["M"]) for _ in range(2)]
         return c
+
+
+def gen_variant(rng):
+    """robustness dimensions of the entry point: the logical input of gen_search run through another public entry
+    point / call form / memory layout / call history (see _search_once); judged by the same model term."""
+    c = gen_search(rng)
+    c["via"] = rng.choice(VIAS)
+    c["form"] = rng.randrange(12)
+    if c["via"] == "noinit":
+        c["inits"] = [0] * len(c["inits"])
+    return c
+
+
+def gen_staggered(rng):
+    """batch interaction: elements of one batch finish at different steps.  States are split into eos-eager and
+    eos-averse ones and the batch starts from both kinds, so one element is frozen (and padded) strictly before
+    another; eos is mostly NOT token 0 and pad_value mostly the default, so the padding clamps to a token other
+    than eos; finish_all_paths on half of the cases (the worst slot of a beam then often finishes first)."""
+    V = rng.choice([2, 3, 3, 4])
+    eos = rng.randrange(1, V) if rng.random() < 0.8 else 0
+    M = rng.choice([5, 7, 9, 11])
+    N = rng.choice([2, 2, 3, 4])
+    eager = set(rng.sample(range(M), rng.randint(1, M - 1)))
+    gap = rng.choice([2, 3, 4, 6])                       # +-1..3 nats on the eos logit
+    tab = []
+    for m in range(M):
+        row = [rng.randint(-2 * UNIT, 2 * UNIT) for _ in range(V)]
+        row[eos] += (gap if m in eager else -gap) * UNIT // 2
+        tab.append(row)
+    inits = [rng.choice(sorted(eager)), rng.choice(sorted(set(range(M)) - eager))]
+    inits += [rng.randrange(M) for _ in range(N - 2)]
+    rng.shuffle(inits)
+    via = rng.choice([None, None, None, None] + list(VIAS))
+    if via == "noinit":
+        via = None
+    c = dict(kind="search", V=V, M=M, a=rng.randint(1, M - 1), b=rng.randint(1, M - 1), c=rng.randrange(M), unit=UNIT,
+             table=tab, width=rng.choice([1, 2, 2, 3, 3, 4, 5, V + 1]), eos=eos if rng.random() < 0.85 else eos - V,
+             fin_all=rng.random() < 0.5,
+             pad=rng.choice([-100] * 6 + [-1, 0, V + 3, 2 ** 40, -2 ** 40, eos]),
+             max_iters=rng.choice([None, None, 3, 4, 5, 6, 8]), N=N, inits=inits)
+    if via is not None:
+        c["via"], c["form"] = via, rng.randrange(12)
+    return c
+
+
+def situation_counts(chk, c, r):
+    """histogram of the situations the independent reviews singled out, read off the implementation's answer"""
+    if "out" not in r or c["eos"] is None:
+        return
+    S, V = r["S"], c["V"]
+    eos = c["eos"] % V
+    mx = [max([o[1] for o in row if o is not None and o[0] != "nonfinite"] + [0]) for row in r["out"]]
+    if c["N"] is not None and c["N"] >= 2 and mx and min(mx) < max(mx) and max(mx) == S:
+        chk.count("situation:element_frozen_before_another")
+        if min(max(c["pad"], 0), V - 1) != eos:
+            chk.count("situation:element_frozen_before_another,pad_clamps_to_non_eos")
+            if eos != 0 and c["pad"] == -100:
+                chk.count("situation:element_frozen_before_another,default_pad,eos!=0")
+    if c["fin_all"]:
+        for row in r["out"]:
+            fin = [o for o in row if o is not None and o[0] != "nonfinite"]
+            if len(fin) >= 2 and fin[-1][1] < max(o[1] for o in fin) and fin[-1][0][-1:] == [eos]:
+                chk.count("situation:finish_all_paths,last_slot_finished_before_others")
+                break
 
 
 def expected_finite(case, S):
@@ -686,6 +958,8 @@ def _search_cands(case):
         yield dict(case, fin_all=False)
     if case["pad"] != -100:
         yield dict(case, pad=-100)
+    if case.get("via") is not None and case.get("via") != "noinit":
+        yield {k: v for k, v in case.items() if k not in ("via", "form")}
     if case["eos"] is not None and case["eos"] < 0:
         yield dict(case, eos=case["eos"] + case["V"])
     if any(x is None for row in case["table"] for x in row):
@@ -727,6 +1001,8 @@ def run_search_cases(chk, cases, meta_budget):
         chk.count("search:width=" + ("1" if c["width"] == 1 else "<=V" if c["width"] <= c["V"] else ">V"))
         chk.count("search:zero_prob_tokens=%s" % (not _all_finite(c)))
         chk.count("search:dtype=%s" % c.get("dtype", "float64"))
+        chk.count("search:via=%s" % c.get("via", "module"))
+        situation_counts(chk, c, r)
         if r.get("watchdog"):
             chk.count("search:outcome=still_running_at_cap")
         elif "exc" in r:
@@ -738,6 +1014,7 @@ def run_search_cases(chk, cases, meta_budget):
                 chk.count("search:has_unusable_slots")
         if "exc" in r:
             exc_bad.append(i)
+            chk.count("search:failing:stream=%s" % strm[i])
             continue
         if tied:
             chk.count("search:skipped_near_tie")
@@ -752,6 +1029,8 @@ def run_search_cases(chk, cases, meta_budget):
             spec_bad.append(i)
         elif not ok:
             bad.append(i)
+        if not (spec and ok):
+            chk.count("search:failing:stream=%s" % strm[i])     # absent on a tree the check accepts
     chk.extra["search_model_disagreements"] = chk.extra.get("search_model_disagreements", 0) + len(bad) + len(spec_bad)
 
     def fails(kind):
@@ -806,12 +1085,16 @@ def run_search_cases(chk, cases, meta_budget):
         chk.report(_record(chk, case, res, tied, ok, spec), no_failing_input=spec)
     # metamorphic: batch element independence on the implementation
     done = nrep = 0
-    for c, r in zip(cases, results):
+    elig = [i for i, (c, r) in enumerate(zip(cases, results)) if c["N"] is not None and c["N"] >= 2 and "out" in r]
+    if len(elig) > meta_budget > 0:
+        # spread the budget evenly over the case list (every stream gets its share), not the first ones only
+        elig = [elig[(j * len(elig)) // meta_budget] for j in range(meta_budget)]
+    for i in elig:
+        c, r = cases[i], results[i]
         if done >= meta_budget or nrep >= 2:
             break
-        if c["N"] is None or c["N"] < 2 or "out" not in r:
-            continue
         done += 1
+        chk.count("meta:batch_vs_alone:stream=%s" % strm[i])
         ok, detail, staggered = batch_independent(c, r)
         chk.count("meta:batch_vs_alone")
         if staggered:
@@ -843,6 +1126,8 @@ def run_adv_cases(chk, cases):
         chk.count("advance:S=" + ("0" if c["S"] == 0 else ">0"))
         chk.count("advance:width" + ("=0" if c["width"] == 0 else "<=KpV" if c["width"] <= c["Kp"] * c["V"] else ">KpV"))
     chk.extra["advance_model_disagreements"] = len(bad)
+    for i in bad:
+        chk.count("advance:failing:layout=%d,f32=%s,call=%s" % (cases[i].get("layout", 0), bool(cases[i].get("f32")), cases[i].get("call", "pos")))
     for i in bad[:2]:
         c = cases[i]
 
@@ -859,9 +1144,12 @@ def run_adv_cases(chk, cases):
             if x["width"] > 1:
                 yield dict(x, width=x["width"] - 1)
         small = shrink(c, fails, cands, budget=15)
-        chk.report({"case": small, "impl": run_impl_adv(small),
+        rs = run_impl_adv(small)
+        chk.report({"case": small, "impl": rs,
                     "model": coq_eval_print(chk.workdir, IMPORTS, adv_show(small)),
-                    "what": "beam_search_advance differs from the model on finite-score slots (top-k over joint scores, "
+                    "what": "beam_search_advance overwrote one of its argument tensors in place"
+                            if isinstance(rs, dict) and rs.get("exc") == "InputModified" else
+                            "beam_search_advance differs from the model on finite-score slots (top-k over joint scores, "
                             "prefix gathered by source index, token written at the prefix length, length + 1, -inf filler)",
                     "correspondence": "corr:C04:beam_search_advance", "theorems_at_stake": THEOREMS})
 
@@ -942,6 +1230,8 @@ def run(chk, cases=None):
     rnd = [dict(gen_search(chk.rng), stream="random") for _ in range(12000 if thorough else 500)]
     rnd += [dict(gen_zero_prob(chk.rng), stream="zero-prob") for _ in range(1500 if thorough else 80)]
     rnd += [dict(gen_extreme(chk.rng), stream="extreme-magnitude") for _ in range(3000 if thorough else 160)]
+    rnd += [dict(gen_variant(chk.rng), stream="entry-layout-history") for _ in range(3000 if thorough else 200)]
+    rnd += [dict(gen_staggered(chk.rng), stream="staggered-batch") for _ in range(2500 if thorough else 150)]
     allc = ex + [c for c in corpus if c.get("kind") == "search"] + rnd
     streams = [c.get("stream", "random") for c in allc]
     results = run_search_cases(chk, allc, meta_budget=(3000 if thorough else 150))
